@@ -712,4 +712,17 @@ C01_ConvergedReal ==
 \* TLC plumbing: behaviour export, one line per generated transition
 EmitEdge == PrintT("EDGE " \o ToJson([steps |-> hist', expect |-> [nodes |-> Views']]))
 
+\* Focused export for configurations too large to replay every transition: only the deliveries that reach a
+\* node holding a copy in the middle of a reset (watermark above max version: the state in which
+\* check_delta_status has to tell a usable delta from one computed before the reset).
+MidResetAt(n) == \E x \in DOMAIN st[n].ns : st[n].ns[x].gc > st[n].ns[x].max
+FocusStep == LET e == hist'[Len(hist')] IN e.a = "Process" /\ e.n \in Node /\ MidResetAt(e.n)
+EmitFocus == FocusStep => EmitEdge
+
+\* ... and, for membership configurations with three nodes: only the evaluations that change the live set
+LiveSwap(n) == (st[n].live \ st'[n].live # {}) /\ (st'[n].live \ st[n].live # {})
+FocusLiveStep == LET e == hist'[Len(hist')] IN e.a = "Liveness" /\ st'[e.n].live # st[e.n].live
+EmitFocusLive == FocusLiveStep => EmitEdge
+NeverSwaps == [][\A n \in Node : ~LiveSwap(n)]_<<vars, hist>>   \* reachability probe (expected to FAIL)
+
 ===============================================================================
